@@ -14,7 +14,7 @@ requests (kv = [[key, int], …]; q = [num, den] or int)
       → {"outs":[[ep|null]], "rows":[ep], "count":n, "rets":[q], "lens":[n]}
   {"op":"eval","n":n,"N":N,"mon":b,"rows":[[{"r":q,"d":b,"ep":[q,l]|null}]]}
       → {"targets":[n],"out":[[q,l]],"steps":k,"finished":b,"counts":[n]}
-  {"op":"eval_raw","n":n,"N":N,"wrap":"none"|"vecmonitor"|"monitor","rows":[[{"r":q,"d":b}]]}
+  {"op":"eval_raw","n":n,"N":N,"wrap":"none"|"vecmonitor"|"monitor","spec":b (optional, default true),"rows":[[{"r":q,"d":b}]]}
       → same as "eval" plus "spec":[[q,l]] (the closed-form specification on the raw rows)
   {"op":"load","files":[{"t_start":q,"rows":[[q,id]]}]}   → {"rows":[[q,id]]}
   {"op":"targets","N":N,"n":n}                            → {"targets":[n]}
@@ -145,8 +145,15 @@ def stepC18 (_ : Unit) (j : Json) : Except String (Unit × Json) := do
       | "monitor" => pure (true, throughMonitors cfg round6 n (List.replicate n (Mon.fresh cfg round6)) rows)
       | _ => throw s!"bad wrap {wrap}"
     let s := evaluate mon N n seen
-    let spec := evalSpec n (targets N n) rows
-    return ((), objJ (evalJ n (targets N n) s ++ [("spec", listJ (fun p => Json.arr #[ratJ p.1, natJ p.2]) spec)]))
+    -- the closed form is quadratic in the number of rows: the harness switches it off for very long tables
+    let wantSpec := match getBool j "spec" with
+      | .ok b => b
+      | .error _ => true
+    if wantSpec then
+      let spec := evalSpec n (targets N n) rows
+      return ((), objJ (evalJ n (targets N n) s ++ [("spec", listJ (fun p => Json.arr #[ratJ p.1, natJ p.2]) spec)]))
+    else
+      return ((), objJ (evalJ n (targets N n) s ++ [("spec", Json.null)]))
   | "load" =>
     let files ← getList (fun f => do
       let ts ← getRat f "t_start"
